@@ -15,7 +15,9 @@ EXPLANATION = (
     "C03.4 the old block survives a failed reallocation: free(old) and the copy are dominated by the new pointer's non-null edge; "
     "C03.5 serialisation: in the threaded configuration every GlobalAlloc method reaches the Dlmalloc instance only through a guard obtained from Mutex::lock in the same body, the allocator static is private; "
     "in the single-threaded configuration that variant is the only one compiled; C03.6 the size-class constants satisfy the relations the unchecked bin indexing and the boundary tags rely on. "
-    "NOT decided: alignment, disjointness and intactness of live blocks, realloc/calloc contents - invariants of the bin/tree/segment shape over call histories (the module's own check_malloc_state is a run-time checker); no structural rule in reach establishes them.")
+    "C03.7 contents: calloc zeroes the whole request unless the block is null or its own fresh kernel mapping and no other condition guards the zeroing, alloc_zeroed goes through calloc, a moving reallocation copies min(old, new) bytes old->new before freeing the old block; "
+    "C03.8 a failed in-place resize mutates nothing: no store or mutating call in try_realloc_chunk lies on a path that then returns null. "
+    "NOT decided: alignment, disjointness and intactness of live blocks - invariants of the bin/tree/segment shape over call histories (the module's own check_malloc_state is a run-time checker); no structural rule in reach establishes them.")
 ASSUMPTIONS = ["dlmalloc's heap-shape invariants hold (not established here)", "MUNMAP returns 0 or -errno"]
 
 D = "tiny_std::allocator::dlmalloc::"
@@ -180,6 +182,88 @@ def run_one(ck, prog):
                   detail="the old block is freed although the new allocation may have failed: the caller keeps using a freed block (GlobalAlloc::realloc must leave the old block valid on failure)")
             for cb in copies:
                 ck.ob("C03.4", f"{nm.split('::')[-1]}|copy-only-after-new-succeeded", any(ctx.cfg.edge_dominates(e, cb) for e in nn), fn=nm, site=ctx.site(cb), detail="contents are copied into a possibly-null block")
+
+            # contents: copy(old, new, min(old usable, new size)) happens before free(old), from the old block into the new one
+            for cb in copies:
+                a = ctx.args(cb)
+                src_old = mentions(a[0], ctx.prov, lambda z: z[0] == "param" and z[1] == 2) and not mentions(a[0], ctx.prov, lambda z: z[0] == "call" and z[3] == news[0])
+                dst_new = mentions(a[1], ctx.prov, lambda z: z[0] == "call" and z[3] == news[0])
+                ln = strip_casts(a[2])
+                is_min = isinstance(ln, tuple) and ln[0] == "call" and (ln[1] or "").endswith("cmp::min") and any(canon(x) in ("p3", "p5") for x in ln[2])
+                ck.ob("C03.7", f"{nm.split('::')[-1]}|prefix-copied-old-to-new", src_old and dst_new and is_min and ctx.cfg.dominates(cb, frees[0]), fn=nm, site=ctx.site(cb),
+                      detail=f"a moving reallocation must copy min(old, new) bytes from the old block into the new one before freeing the old one; got copy({show(a[0])}, {show(a[1])}, {show(a[2])})")
+            ck.ob("C03.7", f"{nm.split('::')[-1]}|one-copy", len(copies) == 1, fn=nm, detail=f"copy sites {len(copies)}")
+            fa = ctx.args(frees[0])
+            ck.ob("C03.7", f"{nm.split('::')[-1]}|frees-the-old-block", len(fa) >= 2 and canon(fa[1]) == "p2", fn=nm, site=ctx.site(frees[0]), detail=f"free must be given the old pointer, got {show(fa[1]) if len(fa) > 1 else None}")
+
+    # ---- C03.7 zeroed allocation zeroes ------------------------------------------------------------------------------------------------------
+    cal = prog.fns.get(DL + "calloc")
+    if ck.anchor("C03.7", "calloc", cal):
+        ctx = prog.ctx(cal)
+        cfg = ctx.cfg
+        mal = [bb for bb, t in cfg.calls(lambda t: t.get("callee") == DL + "malloc")]
+        wb = [bb for bb, t in cfg.calls(lambda t: (t.get("callee") or "").endswith("write_bytes"))]
+        ck.ob("C03.7", "calloc|shape", len(mal) == 1 and len(wb) == 1, fn=cal["path"], detail=f"malloc calls {len(mal)}, write_bytes calls {len(wb)}")
+        if len(mal) == 1 and len(wb) == 1:
+            a = ctx.args(wb[0])
+            ck.ob("C03.7", "calloc|zeroes-the-whole-request", is_direct_use(a[0], mal[0]) and fold(a[1]) == 0 and canon(a[2]) == "p2", fn=cal["path"], site=ctx.site(wb[0]),
+                  detail=f"write_bytes must cover (block, 0, size); got ({show(a[0])}, {show(a[1])}, {show(a[2])})")
+            # the zeroing may be skipped only for a null block or one calloc_must_clear() exempts: no other condition guards it
+            extra = []
+            for f in panics.dominating_facts(ctx, wb[0]):
+                okf = f[0] == "truth" and isinstance(f[1], tuple) and f[1][0] == "call" and (
+                    ((f[1][1] or "").endswith("::is_null") and f[2] is False) or ((f[1][1] or "").endswith("calloc_must_clear") and f[2] is True)) and f[1][2] and is_direct_use(f[1][2][0], mal[0])
+                if not okf:
+                    extra.append(f)
+            ck.ob("C03.7", "calloc|zeroing-skipped-only-for-null-or-exempt-blocks", not extra, fn=cal["path"], site=ctx.site(wb[0]),
+                  detail=f"the zeroing is guarded by a further condition ({'; '.join(show(f[1]) if f[0] == 'truth' else f'{show(f[2])} {f[1]} {show(f[3])}' for f in extra)}): a block carved from recycled memory comes back dirty whenever that condition fails")
+            rets = list(ctx.ret_expr().values())
+            ck.ob("C03.7", "calloc|returns-the-block", len(rets) == 1 and is_direct_use(rets[0], mal[0]), fn=cal["path"], detail="calloc must return malloc's block")
+    cmc = prog.fns.get(DL + "calloc_must_clear")
+    if ck.anchor("C03.7", "calloc_must_clear", cmc):
+        c2 = prog.ctx(cmc)
+        rets = [strip_casts(v) for v in c2.ret_expr().values()]
+        ok = len(rets) == 1 and isinstance(rets[0], tuple) and rets[0][0] == "un" and rets[0][1] == "Not" and isinstance(strip_casts(rets[0][2]), tuple) and strip_casts(rets[0][2])[0] == "call" and \
+            (strip_casts(rets[0][2])[1] or "").endswith("Chunk::mmapped") and mentions(rets[0][2], c2.prov, lambda z: z[0] == "call" and (z[1] or "").endswith("Chunk::from_mem") and z[2] and canon(z[2][0]) == "p1")
+        ck.ob("C03.7", "calloc_must_clear|only-direct-mappings-exempt", ok, fn=cmc["path"], detail=f"only a block that is its own fresh kernel mapping (Chunk::mmapped) may skip zeroing; calloc_must_clear returns {[show(r) for r in rets]}")
+    ga_z = [f for p2, f in prog.fns.items() if p2.endswith("GlobalAlloc>::alloc_zeroed") and "allocator" in p2]
+    for f in ga_z:
+        c3 = prog.ctx(f)
+        callee = [t.get("callee") for _, t in c3.cfg.calls(lambda t: (t.get("callee") or "").startswith(DL))]
+        ck.ob("C03.7", f"alloc_zeroed-uses-calloc|{f['path'].split(' as ')[0].split('::')[-1]}", callee == [DL + "calloc"], fn=f["path"], detail=f"alloc_zeroed must go through Dlmalloc::calloc; it calls {callee}")
+    ck.floor("C03.7", "alloc_zeroed implementations", len(ga_z), 1)
+
+    # ---- C03.8 a failed in-place resize leaves the heap untouched ------------------------------------------------------------------------------
+    trc = prog.fns.get(DL + "try_realloc_chunk")
+    if ck.anchor("C03.8", "try_realloc_chunk", trc):
+        ctx = prog.ctx(trc)
+        cfg = ctx.cfg
+        PURE = ("Chunk::size", "Chunk::plus_offset", "Chunk::minus_offset", "Chunk::mmapped", "Chunk::cinuse", "Chunk::pinuse", "Chunk::inuse", "core::ptr::null_mut", "PartialEq", "Chunk::next", "Chunk::prev", "Chunk::from_mem", "Chunk::to_mem", "Dlmalloc::overhead_for")
+        nulls = [bb for bb, t in cfg.calls(lambda t: (t.get("callee") or "").endswith("core::ptr::null_mut") and t["dst"]["l"] == 0)]
+        for b in trc["blocks"]:
+            if b["id"] in cfg.live_blocks() and any(s["k"] == "assign" and s["dst"]["l"] == 0 and not s["dst"].get("p") and fold(ctx.prov.rvalue(s["rv"], (b["id"], i))) == 0 for i, s in enumerate(b["stmts"])):
+                nulls.append(b["id"])
+        ck.floor("C03.8", "null returns of try_realloc_chunk", len(nulls), 4)
+        muts = []
+        for b in trc["blocks"]:
+            if b["id"] not in cfg.live_blocks() or b.get("cleanup"):
+                continue
+            for s in b["stmts"]:
+                if s["k"] == "assign" and s["dst"].get("p") and s["dst"]["p"][0]["k"] == "deref":
+                    muts.append((b["id"], "store through " + str(ctx.prov.names.get(s["dst"]["l"], s["dst"]["l"]))))
+            t = b["term"]
+            if t["k"] == "call" and t.get("callee") and not t["callee"].endswith(PURE) and not (t["dst"]["l"] == 0 and not t["dst"].get("p")):
+                muts.append((b["id"], "call of " + t["callee"].split("::")[-1]))
+        ck.floor("C03.8", "mutating sites in try_realloc_chunk", len(muts), 10)
+        n_bad = 0
+        for mb, what in muts:
+            r = cfg.reachable_from(mb)
+            hit = [nb for nb in nulls if nb in r and nb != mb]
+            if hit:
+                n_bad += 1
+                ck.ob("C03.8", f"failed-resize-mutates-nothing|{what}", False, fn=trc["path"], site=ctx.site(mb),
+                      detail=f"{what} happens on a path that then returns null: the caller treats null as `nothing changed` (falls back to malloc+copy+free), so e.g. a neighbour already unlinked from its bin is lost or unlinked twice")
+        ck.ob("C03.8", "failed-resize-mutates-nothing", n_bad == 0, fn=trc["path"], detail=f"{len(muts)} mutating sites, {len(nulls)} null returns checked")
 
     # ---- C03.5 serialisation ---------------------------------------------------------------------------------------------------------------
     ga = [f for p, f in prog.fns.items() if f.get("impl_trait") == "core::alloc::global::GlobalAlloc" and "GlobalDlMalloc" in (f.get("impl_self") or "")]
